@@ -209,3 +209,4 @@ func verifAtU32(s []uint32, i int) uint32 {
 	}
 	return 0
 }
+func verifWant(id string) {}
